@@ -33,7 +33,7 @@ CONTRACTS = [
              trusted_reason="A-LIB: cpu_count() is a positive integer (or raises)"),
     Contract("context.py::Context.from_cwd", returns="Context", extern=True, fresh_result=True, raises={"ConductorError+": []},
              trusted_reason="proved in contracts/context.py (C17)"),
-    Contract("parsing/task_index.py::TaskIndex.load_transitive_closure", params={"task_identifier": "TaskIdentifier"}, extern=True,
+    Contract("ext::TaskIndex.load_transitive_closure(cli)", params={"task_identifier": "TaskIdentifier"},
              modifies=["g_closure_ok"], ensures=["g_closure_ok"], raises={"ConductorError+": ["not g_closure_ok"]},
              trusted_reason="proved in contracts/task_index.py (C14): normal return <=> the closure is complete, acyclic and duplicate-free"),
     Contract("utils/git.py::Git.rev_parse", params={"commit_symbol": "str"}, returns="Opt[str]", extern=True,
@@ -73,7 +73,8 @@ CONTRACTS = [
                      "CommitFlagUnsupported": ["(args.this_commit or args.at_least is not None) and (not GitUsed(ctx) or Head(ctx) is None)"]}),
 
     Contract(F + "::main", params={"args": "Namespace"}, props=["C05", "C14", "C15", "C04", "C03"],
-             prefer_ext=["Executor.run_plan", "ExecutionPlanner.create_plan_for"],
+             prefer_ext={"Executor.run_plan": "Executor.run_plan", "ExecutionPlanner.create_plan_for": "ExecutionPlanner.create_plan_for",
+                         "TaskIndex.load_transitive_closure": "TaskIndex.load_transitive_closure(cli)"},
              requires=[C("fresh_invocation", "not g_closure_ok and not g_planned and not g_ran")],
              modifies=["g_closure_ok", "g_planned", "g_ran", "g_plan_again", "g_plan_at_least", "g_jobs", "g_stop_early", "$alloc"],
              ensures=[C("check_never_plans_or_runs", "implies(args.check, not g_planned and not g_ran)", "C15", "C14"),
